@@ -643,7 +643,7 @@ def run(ck, F, tier):
         dist = ("Some", d) if d is not None else "None"
         # the reached node is Row(0); its recorded distance is `dist` whether read through get_node_mut or from the distance vectors
         return Grid({"max": mx}, {".path_length": lambda *a_: L, "get_node_mut": lambda *a_: dist, "index": lambda *a_: dist,
-                                  "pop_front": lambda *a_: ("Some", "HEAD"), ".node": lambda *a_: ("Row", 0), ".parent": lambda *a_: "None",
+                                  "pop_front": lambda *a_: ("Some", "HEAD"), "pop_back": lambda *a_: ("Some", "HEAD"), ".node": lambda *a_: ("Row", 0), ".parent": lambda *a_: "None",
                                   "iter": lambda *a_: "NEXT", "elem": lambda *a_: ("Row", 0), "elem_filter": lambda *a_: ("Row", 0),
                                   "elem_map": lambda *a_: ("Row", 0)})
     okb = okp = oks = len(rets_l) == 1 and len(pushes_l) == 1 and len(stores_l) == 1 and retl == ("variant", "None")
